@@ -79,6 +79,10 @@ def shapes(tier):
     ]
     # worker jobs also preemptible at every store READ: shutdown while a block is half advanced (ok == False)
     out.append(dict(base, split_jobs='reads', initial=INITIAL, deviations=1, script=[('block', payA)]))
+    # the daemon reorganises while a new block is being advanced: the next fetched block does not connect (reorg
+    # detection) while the advanced block is still unflushed; shutdown anywhere
+    out.append(dict(base, initial=INITIAL, deviations=1,
+                    script=[(('when', 'bp:advance_block', 1), ('reorg', 1, [cbB, payAB, cbC])), ('block', payA)]))
     # the real OnDiskBlock prefetcher: shutdown while block downloads are still in flight (and blocks already processed)
     out.append(dict(base, real_odb=True, initial=INITIAL + [cbA, payA], deviations=1, explore_startup=True, script=[]))
     # cache pressure: check_cache_size_loop asks for a flush while blocks are being advanced
